@@ -1,5 +1,5 @@
 SPECIFICATION Spec
-CONSTANTS MaxBr = 3 MaxN = 4 CopyMode = "deep"
+CONSTANTS MaxBr = 3 MaxN = 3 CopyMode = "deep"
   BufSizes <- BufAll
   FillBr = 3
   FillTemplates <- FillFew
